@@ -281,7 +281,7 @@ func JudgeVictims(w *World) *Verdict {
 	v := &Verdict{History: h, Findings: EngineFindings(h)}
 	var tot VictimFacts
 	for _, rec := range h.Cycles {
-		if rec.Panic != "" || rec.Hung {
+		if rec.Panic != "" || rec.Hung || rec.Starved {
 			continue
 		}
 		fs, f := CheckVictims(w, rec)
